@@ -124,3 +124,13 @@ Theorem c13_magnet_tracker : forall h u,
   mp_tiers (magnet_params m) = [[u]] /\ mp_webseeds (magnet_params m) = [] /\ mp_name (magnet_params m) = [].
 Proof. exact magnet_with_tracker. Qed.
 Print Assumptions c13_magnet_tracker.
+
+(* ... and with one web seed u (any http:// or https:// URL that webseed.New accepts, without '&'):
+   that hash, the web seed u, no tracker and no name. *)
+Theorem c13_magnet_webseed : forall h u,
+  List.length h = 20%nat -> Forall (fun b => b < 256) h -> http_url u = true -> ~ In 38 u ->
+  let m := magnet_of h (38 :: 119 :: 115 :: 61 :: u) in     (* ... &ws=u *)
+  read_magnet m = MgOk h /\
+  mp_webseeds (magnet_params m) = [u] /\ mp_tiers (magnet_params m) = [] /\ mp_name (magnet_params m) = [].
+Proof. exact magnet_with_webseed. Qed.
+Print Assumptions c13_magnet_webseed.
